@@ -207,3 +207,7 @@ def gen(ctx):
 
 
 UNITS = [Unit("sequences", gen, check, shards=(4, 16))]
+
+
+from vlib import clidiff
+UNITS.append(clidiff.unit("C04"))
